@@ -44,9 +44,10 @@ class Profile(object):
         self.p_parallel_edge = 0.1
         self.lang_jinja = 0.25
         self.p_template = 0.25     # use a hand-written shape with random details
-        self.templates = [0, 1, 2, 3, 4, 5, 6]   # which templates (weights by repetition)
+        self.templates = [0, 1, 2, 3, 4, 5, 6, 7, 8]   # which templates (weights by repetition)
         self.bad_where = None      # restrict the position of the injected failing expression
         self.p_use_y = 0.15        # reference the string variable y in inputs / publishes
+        self.p_null_over = 0.1     # publish null over an already published variable
         self.p_odd_strings = 0.3   # string values with newlines, comments, quotes, unicode
         for k, v in kw.items():
             setattr(self, k, v)
@@ -98,6 +99,18 @@ def template_def(rng, prof):
                  T("y1", [tr(["j"], None, [["v", lit("from_y")]])]),
                  T("j", [tr(["continue"], None, [["w", ctx("v")]])], join="all", input=[["p", ctx("v")]])]
         feat = "tpl_publish_race"
+    elif k == 7:  # an earlier transition publishes a dict over a dict variable a later condition reads
+        tasks = [T("decide", [tr(["apply"], None, [["d", lit({"a": rng.randint(5, 9)})]]),
+                             tr(["notify"], op("lt", {"ctxkey": "d", "k": "a"}, lit(3))),
+                             tr(["skip"], {"not": op("lt", {"ctxkey": "d", "k": "a"}, lit(3))})]),
+                 T("apply"), T("notify"), T("skip")]
+        feat = "tpl_dict_publish"
+    elif k == 8:  # with-items task that is a count join (region of D2: compared, not monitored)
+        tasks = [T("left", [tr(["w"], None, [["l", lit(1)]])]), T("right", [tr(["w"], None, [["r", lit(2)]])]),
+                 T("w", [tr(["z"])], join=1, input=[["it", fn("item")]],
+                   **{"with": {"items": lit([1, 2, 3]), "key": None, "concurrency": rng.choice([None, lit(2)])}}),
+                 T("z")]
+        feat = "tpl_items_count_join"
     else:         # two publish-only transitions and a noop ending
         tasks = [T("a", [tr(["b", "c"])]), T("b", [tr(["noop"], None, [["x", lit(1)]])]),
                  T("c", [tr(["continue"], None, [["v1", fn("result")]]), tr(["continue"], None, [["v2", lit(7)]])])]
@@ -192,6 +205,8 @@ def gen_def(rng, prof):
                 if rng.random() < 0.15:
                     v = "d"   # a dict published over a dict (merge_dicts recurses into it)
                     val = lit({"a": rng.randint(3, 9)})
+                if v not in ("x", "n", "d") and v in published and rng.random() < prof.p_null_over:
+                    val = lit(None)   # a null published over an existing value must win
                 if v in ("x", "n"):
                     # these are compared numerically elsewhere; keep them integers (YAQL orders
                     # null and integers without raising, which the fragment does not model)
@@ -404,6 +419,7 @@ class History(object):
         return self.rng.random() < self.hp.p_fail
 
     def start_offers(self, offers):
+        empties = []
         for o in offers:
             if o["id"] in CMDS:
                 continue   # an engine command offered as a task (finding D19): a provider cannot run it
@@ -423,11 +439,14 @@ class History(object):
                 self.inflight.append(key)
                 self.started.append(key)
             if o["items_count"] == 0:
-                # empty with-items: the provider completes the task at once with an empty result
+                # empty with-items: started like the others ...
                 self.play({"op": "report", "task": o["id"], "route": o["route"], "status": "running",
                            "result": None})
-                self.play({"op": "report", "task": o["id"], "route": o["route"], "status": "succeeded",
-                           "result": []})
+                empties.append(o)
+        for o in empties:
+            # ... and completed at once with an empty result, after every offered action was started
+            self.play({"op": "report", "task": o["id"], "route": o["route"], "status": "succeeded",
+                       "result": []})
 
     def _retrying(self, key):
         """the retrying row of the task machine ignores pre-running reports, so a retried action is
